@@ -245,6 +245,7 @@ def run(prog, rep, tier='quick', config='default'):
     pt.seed()
     n_sinks = 0
     counts = {}
+    rename_into_live = []
     for (fn, c, i) in pt.sink_hits:
         n_sinks += 1
         ordn = counts.setdefault((fn.name, c.callee), 0) + 1
@@ -256,7 +257,7 @@ def run(prog, rep, tier='quick', config='default'):
                 bad = 'opens / writes the live cache file in place'
         if re.search(r'^std::fs::rename$', c.callee):
             if i == 1:
-                rep.ok('R14a', k, where=c.where(), fn=fn.name, detail='live name is the destination of rename()')
+                rename_into_live.append((fn, c, k))
             else:
                 rep.ok('R14a', k, where=c.where(), fn=fn.name, detail='live name is moved away by rename() (cannot corrupt it)')
             continue
@@ -287,6 +288,15 @@ def run(prog, rep, tier='quick', config='default'):
         ps0, _ = producers_in(prog, c.fn, c.args[0])
         if producer.name in ps and producer.name not in ps0:
             live_renames.append((k, c, v, ps0))
+    # every rename(.., live) in the program must be the commit step of write_rates checked below
+    commit_sites = {(c.fn.name, c.bb) for (k, c, v, _) in live_renames}
+    for (fn, c, k) in rename_into_live:
+        if (fn.name, c.bb) in commit_sites:
+            rep.ok('R14a', k, where=c.where(), fn=fn.name, detail='live name is the destination of the commit rename() of write_rates')
+        else:
+            rep.violation('R14a', k, where=c.where(), fn=fn.name,
+                          detail='a file is renamed over the live cache file outside the flush -> fsync -> rename sequence of write_rates: '
+                                 'a partially written (e.g. left-over temporary) file can become the trusted cache')
     creates = [(k, c, v) for (k, c, v) in evs if k == 'create']
     if not creates:
         rep.violation('R14b', 'no-create', fn=writer.name, detail='write_rates creates no file (anchor lost: cache write path)')
